@@ -226,8 +226,9 @@ class Inliner:
             return t2
         return None
 
-    def inline(self, rec, rounds=6, max_blocks=600):
+    def inline(self, rec, rounds=6, max_growth=1500):
         rec = copy.deepcopy(rec)
+        max_blocks = len(rec["blocks"]) + max_growth
         origin = {i: (rec["def"],) for i in range(len(rec["blocks"]))}   # block -> inline stack (for recursion cut)
         for _ in range(rounds):
             changed = False
